@@ -1,1 +1,316 @@
-// placeholder
+// C01 / C11 plumbing arms: stack manipulation, constants, jumps, calls, host calls, stop,
+// panic, string/byte intrinsics, and the register encoding.
+
+// ---- register encoding: assembly::Reg::encode vs the bit tricks of load/store_offset_or_top ----
+vm_harness! {
+    #[kani::unwind(9)]
+    fn c01_reg_load_all_offsets() {
+        // every 15-bit offset n; the frame base is chosen so that base + n lands inside a 5-slot stack
+        let n: i16 = kani::any();
+        kani::assume(n >= -16384 && n <= 16383);
+        let want: usize = kani::any();
+        kani::assume(want < FRAME);
+        let mut t = mk_thread(vec![Instr::Stop], vec![], vec![]);
+        push_frame(&mut t, ValueTag::Int);
+        t.stack_base = (want as isize - n as isize) as usize;
+        let before = t.value_stack.clone();
+        let got = t.load_offset_or_top(Reg::Offset(n).encode());
+        assert!(got.0 == before[want].0 && got.1 == before[want].1, "Offset(n) reads slot base + n");
+        assert!(same_stack(&t.value_stack, &before), "an Offset read does not pop");
+        kani::cover!(n == -16384, "req: most negative offset");
+        kani::cover!(n == 16383, "req: most positive offset");
+        std::mem::forget(t);
+    }
+}
+vm_harness! {
+    #[kani::unwind(9)]
+    fn c01_reg_store_all_offsets() {
+        let n: i16 = kani::any();
+        kani::assume(n >= -16384 && n <= 16383);
+        let want: usize = kani::any();
+        kani::assume(want < FRAME);
+        let mut t = mk_thread(vec![Instr::Stop], vec![], vec![]);
+        t.value_stack = Vec::with_capacity(8);
+        push_frame(&mut t, ValueTag::Int);
+        t.stack_base = (want as isize - n as isize) as usize;
+        let mut model = t.value_stack.clone();
+        let v = sym_val(ValueTag::Int);
+        t.store_offset_or_top(Reg::Offset(n).encode(), v);
+        model[want] = v;
+        assert!(same_stack(&t.value_stack, &model), "Offset(n) overwrites slot base + n and nothing else");
+        kani::cover!(n < 0, "req: negative offset");
+        std::mem::forget(t);
+    }
+}
+vm_harness! {
+    #[kani::unwind(9)]
+    fn c01_reg_top() {
+        let mut t = mk_thread(vec![Instr::Stop], vec![], vec![]);
+        push_frame(&mut t, ValueTag::Int);
+        let mut model = t.value_stack.clone();
+        let got = t.load_offset_or_top(Reg::Top.encode());
+        let want = model.pop().unwrap();
+        assert!(got.0 == want.0 && same_stack(&t.value_stack, &model), "Top pops");
+        let v = sym_val(ValueTag::Float);
+        t.store_offset_or_top(Reg::Top.encode(), v);
+        model.push(v);
+        assert!(same_stack(&t.value_stack, &model), "Top pushes");
+        kani::cover!(true, "req: reachable");
+        std::mem::forget(t);
+    }
+}
+
+// CallData packs 5 bits of nargs and 27 bits of address
+#[kani::proof]
+fn c01_calldata_roundtrip() {
+    let nargs: u32 = kani::any();
+    let addr: u32 = kani::any();
+    kani::assume(nargs < 32 && addr < (1 << 27));
+    let c = CallData::new(nargs, addr);
+    assert!(c.get_nargs() == nargs && c.get_addr() == addr, "CallData round-trips nargs and addr");
+    kani::cover!(nargs == 31 && addr == (1 << 27) - 1, "req: extreme values");
+}
+
+// ---- simple stack arms ----
+vm_harness! {
+    #[kani::unwind(9)]
+    fn c01_stack_arms() {
+        let c: [i64; 2] = kani::any();
+        let fb: u64 = kani::any();
+        let mut t = mk_thread(
+            vec![
+                Instr::PushInt(1), Instr::PushFloat(0), Instr::PushBool(true), Instr::PushNil(2),
+                Instr::PushAddr(ProgramCounter(77)), Instr::Duplicate, Instr::Pop,
+                Instr::LoadOffset(-1), Instr::StoreOffset(2), Instr::StoreOffsetImm(0, 0), Instr::Stop,
+            ],
+            vec![c[0], c[1]],
+            vec![f64::from_bits(fb)],
+        );
+        push_frame(&mut t, ValueTag::Int);
+        let mut model = t.value_stack.clone();
+        let mut pc = 0u32;
+        // PushInt
+        t.pc.0 = 0; assert!(t.step()); model.push(Value::from(c[1]));
+        assert!(same_stack(&t.value_stack, &model) && t.pc.0 == 1, "PushInt pushes the indexed constant");
+        t.pc.0 = 1; assert!(t.step()); model.push(Value(fb, ValueTag::Float));
+        assert!(same_stack(&t.value_stack, &model), "PushFloat");
+        t.pc.0 = 2; assert!(t.step()); model.push(Value::from(true));
+        assert!(same_stack(&t.value_stack, &model), "PushBool");
+        t.pc.0 = 3; assert!(t.step()); model.push(Value::from(0i64)); model.push(Value::from(0i64));
+        assert!(same_stack(&t.value_stack, &model), "PushNil(n) pushes n zero slots");
+        t.pc.0 = 4; assert!(t.step()); model.push(Value(77, ValueTag::Addr));
+        assert!(same_stack(&t.value_stack, &model), "PushAddr");
+        t.pc.0 = 5; assert!(t.step()); let top = *model.last().unwrap(); model.push(top);
+        assert!(same_stack(&t.value_stack, &model), "Duplicate");
+        t.pc.0 = 6; assert!(t.step()); model.pop();
+        assert!(same_stack(&t.value_stack, &model), "Pop");
+        t.pc.0 = 7; assert!(t.step()); let v = model[slot(-1)]; model.push(v);
+        assert!(same_stack(&t.value_stack, &model), "LoadOffset reads base + n");
+        t.pc.0 = 8; assert!(t.step()); let v = model.pop().unwrap(); model[slot(2)] = v;
+        assert!(same_stack(&t.value_stack, &model), "StoreOffset pops into base + n");
+        t.pc.0 = 9; assert!(t.step()); model[slot(0)] = Value::from(c[0]);
+        assert!(same_stack(&t.value_stack, &model), "StoreOffsetImm stores the indexed constant");
+        assert!(t.error.is_none() && !t.done && t.pending_host_func.is_none());
+        kani::cover!(true, "req: reachable");
+        std::mem::forget(t);
+    }
+}
+
+// ---- jumps ----
+vm_harness! {
+    #[kani::unwind(9)]
+    fn c01_jumps() {
+        let mut t = mk_thread(
+            vec![Instr::Jump(ProgramCounter(40)), Instr::JumpIf(ProgramCounter(50)), Instr::JumpIfFalse(ProgramCounter(60)), Instr::Stop],
+            vec![], vec![],
+        );
+        push_frame(&mut t, ValueTag::Int);
+        let frame = t.value_stack.clone();
+        t.pc.0 = 0; assert!(t.step());
+        assert!(t.pc.0 == 40 && same_stack(&t.value_stack, &frame), "Jump");
+        let b: bool = kani::any();
+        t.value_stack.push(Value::from(b));
+        t.pc.0 = 1; assert!(t.step());
+        assert!(t.pc.0 == if b { 50 } else { 2 } && same_stack(&t.value_stack, &frame), "JumpIf pops its condition and jumps iff true");
+        t.value_stack.push(Value::from(b));
+        t.pc.0 = 2; assert!(t.step());
+        assert!(t.pc.0 == if b { 3 } else { 60 } && same_stack(&t.value_stack, &frame), "JumpIfFalse pops its condition and jumps iff false");
+        kani::cover!(b, "req: true branch");
+        kani::cover!(!b, "req: false branch");
+        std::mem::forget(t);
+    }
+}
+
+// ---- call / return: frame discipline ----
+macro_rules! call_return_harness {
+    ($name:ident, $nargs:expr, $void:expr) => {
+        vm_harness! {
+            #[kani::unwind(9)]
+            fn $name() {
+                let ret_instr = if $void { Instr::ReturnVoid } else { Instr::Return($nargs) };
+                let mut t = mk_thread(
+                    vec![Instr::Call(CallData::new($nargs, 2)), Instr::Stop, ret_instr, Instr::Stop],
+                    vec![], vec![],
+                );
+                push_frame(&mut t, ValueTag::Int);
+                let caller = t.value_stack.clone();
+                let caller_base = t.stack_base;
+                let mut k = 0;
+                while k < $nargs {
+                    let a = sym_val(ValueTag::Int);
+                    t.value_stack.push(a);
+                    k += 1;
+                }
+                t.pc.0 = 0;
+                assert!(t.step());
+                assert!(t.pc.0 == 2, "Call jumps to the callee");
+                assert!(t.stack_base == FRAME + $nargs as usize, "callee frame starts above its arguments");
+                assert!(t.call_stack.len() == 1 && t.call_stack[0].pc.0 == 1 && t.call_stack[0].stack_base == caller_base
+                    && t.call_stack[0].nargs == $nargs, "return address, caller base and nargs saved");
+                // callee: one local and (for non-void) a result on top
+                let local = sym_val(ValueTag::Float);
+                t.value_stack.push(local);
+                let result = sym_val(ValueTag::Int);
+                if !$void { t.value_stack.push(result); }
+                t.pc.0 = 2;
+                assert!(t.step());
+                assert!(t.pc.0 == 1, "returns to the instruction after the call");
+                assert!(t.stack_base == caller_base, "caller frame base restored");
+                assert!(t.call_stack.len() == 0);
+                let mut model = caller.clone();
+                if !$void { model.push(result); }
+                assert!(same_stack(&t.value_stack, &model), "arguments and callee locals are gone; exactly the result remains");
+                kani::cover!(true, "req: reachable");
+                std::mem::forget(t);
+            }
+        }
+    };
+}
+call_return_harness!(c01_call_return_0, 0u32, false);
+call_return_harness!(c01_call_return_2, 2u32, false);
+call_return_harness!(c01_call_returnvoid_0, 0u32, true);
+call_return_harness!(c01_call_returnvoid_3, 3u32, true);
+
+vm_harness! {
+    #[kani::unwind(9)]
+    fn c01_call_func_obj() {
+        // closure = struct [Addr, capture0, capture1]; CallFuncObj(nargs) pushes the captures as the first locals
+        let mut t = mk_thread(vec![Instr::CallFuncObj(1), Instr::Stop, Instr::Return(1), Instr::Stop], vec![], vec![]);
+        let caps: [u64; 2] = kani::any();
+        let clo = StructObject::new(vec![Value(2, ValueTag::Addr), Value(caps[0], ValueTag::Int), Value(caps[1], ValueTag::Float)], &mut t);
+        push_frame(&mut t, ValueTag::Int);
+        let caller = t.value_stack.clone();
+        let arg = sym_val(ValueTag::Int);
+        t.value_stack.push(arg);
+        t.value_stack.push(Value::from(clo));
+        t.pc.0 = 0;
+        assert!(t.step());
+        assert!(t.pc.0 == 2 && t.stack_base == FRAME + 1, "jumps to the closure's code; frame above the argument");
+        assert!(t.value_stack.len() == FRAME + 3, "function object popped, captures pushed");
+        assert!(t.value_stack[FRAME].0 == arg.0, "argument stays below the frame base");
+        assert!(t.value_stack[FRAME + 1].0 == caps[0] && t.value_stack[FRAME + 1].1 == ValueTag::Int
+            && t.value_stack[FRAME + 2].0 == caps[1] && t.value_stack[FRAME + 2].1 == ValueTag::Float, "captures in order as first locals");
+        let result = sym_val(ValueTag::Int);
+        t.value_stack.push(result);
+        t.pc.0 = 2;
+        assert!(t.step());
+        let mut model = caller.clone();
+        model.push(result);
+        assert!(t.pc.0 == 1 && t.stack_base == SB && same_stack(&t.value_stack, &model), "return discards argument and captures");
+        kani::cover!(true, "req: reachable");
+        std::mem::forget(t);
+    }
+}
+
+// ---- Stop / HostFunc / Panic (C11) ----
+vm_harness! {
+    #[kani::unwind(9)]
+    fn c11_stop_and_hostfunc() {
+        let mut t = mk_thread(vec![Instr::HostFunc(513), Instr::Stop], vec![], vec![]);
+        push_frame(&mut t, ValueTag::Int);
+        let a0 = sym_val(ValueTag::Int);
+        let a1 = sym_val(ValueTag::Float);
+        t.value_stack.push(a0);
+        t.value_stack.push(a1);
+        let before = t.value_stack.clone();
+        t.pc.0 = 0;
+        let cont = t.step();
+        assert!(!cont, "a host call suspends the thread");
+        assert!(t.pending_host_func == Some(513), "exactly the requested host function id is pending");
+        assert!(same_stack(&t.value_stack, &before), "arguments stay on the stack in push order");
+        assert!(!t.done && t.error.is_none() && t.pc.0 == 1);
+        assert!(matches!(t.status(), VmStatus::PendingHostFunc(513)));
+        assert!(!t.can_run(), "a thread with a pending host call is not runnable");
+        // host consumes the arguments and pushes a symbolic return value
+        let got1 = t.pop();
+        let got0 = t.pop();
+        assert!(got1.0 == a1.0 && got0.0 == a0.0, "host sees the arguments last-pushed first");
+        let ret = sym_val(ValueTag::Int);
+        t.push_int(ret.0 as i64);
+        t.clear_pending_host_func();
+        assert!(t.can_run());
+        assert!(t.top().0 == ret.0 && t.top().1 == ValueTag::Int, "resumes with the host's value on top");
+        t.pc.0 = 1;
+        let cont = t.step();
+        assert!(!cont && t.done && t.error.is_none(), "Stop finishes the thread");
+        assert!(matches!(t.status(), VmStatus::Done));
+        assert!(t.top().0 == ret.0, "final value is the last value pushed");
+        kani::cover!(true, "req: reachable");
+        std::mem::forget(t);
+    }
+}
+vm_harness! {
+    #[kani::unwind(9)]
+    fn c11_panic_reports_error_not_done() {
+        let mut t = mk_thread(vec![Instr::Panic, Instr::Stop], vec![], vec![]);
+        let msg = mk_string(&mut t, [b'o', b'h', b'!'], 3);
+        push_frame(&mut t, ValueTag::Int);
+        t.value_stack.push(msg);
+        t.pc.0 = 0;
+        let cont = t.step();
+        assert!(!cont && err_code(&t) == EK_PANIC && !t.done, "panic is an error, never completion");
+        assert!(matches!(t.status(), VmStatus::Error(_)));
+        assert!(!t.can_run());
+        kani::cover!(true, "req: reachable");
+        std::mem::forget(t);
+    }
+}
+
+// ---- string intrinsics ----
+vm_harness! {
+    #[kani::unwind(9)]
+    fn c01_string_count_bytes() {
+        let mut t = mk_thread(vec![Instr::StringCountBytes(enc(T, 0), enc(T, 0)), Instr::Stop], vec![], vec![]);
+        let b = sym_ascii3();
+        let len: usize = kani::any();
+        kani::assume(len <= 3);
+        let s = mk_string(&mut t, b, len);
+        push_frame(&mut t, ValueTag::Int);
+        t.value_stack.push(s);
+        let mut model = t.value_stack.clone();
+        model.pop();
+        check_step(&mut t, model, T, 0, Exp::Val(Value::from(len as i64)), false);
+        std::mem::forget(t);
+    }
+}
+vm_harness! {
+    #[kani::unwind(9)]
+    fn c01_string_nth_byte() {
+        // prelude callers guard the index; an out-of-range index must still not crash the host
+        let mut t = mk_thread(vec![Instr::StringNthByte(enc(T, 0), enc(T, 0), enc(T, 0)), Instr::Stop], vec![], vec![]);
+        let b = sym_ascii3();
+        let len: usize = kani::any();
+        kani::assume(len <= 3);
+        let s = mk_string(&mut t, b, len);
+        let n: i64 = kani::any();
+        push_frame(&mut t, ValueTag::Int);
+        t.value_stack.push(s);
+        t.value_stack.push(Value::from(n));
+        let mut model = t.value_stack.clone();
+        model.pop();
+        model.pop();
+        kani::assume(n >= 0 && (n as usize) < len); // in-range part: exact byte
+        check_step(&mut t, model, T, 0, Exp::Val(Value::from(b[n as usize] as i64)), false);
+        std::mem::forget(t);
+    }
+}
